@@ -3,8 +3,11 @@ Every program is deterministic and straight enough for one concrete execution to
 import itertools
 
 CONNECTORS = ["assign", "binop", "call_return", "field", "element", "dict", "closure", "global", "tuple", "branch", "loop_once", "augmented",
-              "list_append", "field_append", "dict_append", "method_store", "alias_field", "reassign_source", "kwargs_extra", "varargs", "keyword_arg", "kwargs_sink"]
+              "list_append", "field_append", "dict_append", "method_store", "alias_field", "reassign_source", "kwargs_extra", "varargs", "keyword_arg", "kwargs_sink",
+              "two_deep_second_call", "two_deep_sink_second_call"]
 SOURCES = ["call", "param"]
+# rule kind object_call: the source is a method call named by the access path of its receiver
+METHOD_SOURCES = ["method", "method_path", "this_path"]
 SINKS = ["direct", "callee"]
 
 
@@ -26,6 +29,13 @@ class Chain:
         cur = "v0"
         if self.source == "call":
             body.append("v0 = source()")
+        elif self.source == "method":            # plain receiver variable
+            body.append("v0 = p_x.read_src()")
+        elif self.source == "method_path":       # receiver reached through fields of an imported name
+            top = ["from flask import request", ""] + top
+            body.append("v0 = request.query_string.decode_src()")
+        elif self.source == "this_path":         # receiver is a field of the object the method runs on
+            body.append("v0 = self.conn.recv_src()")
         else:
             body.append("v0 = p_src")
         for i, k in enumerate(self.connectors):
@@ -84,6 +94,14 @@ class Chain:
                 body += ["keep%d = %s" % (i, cur), "sink(keep%d)" % i, "%s = source()" % cur, "%s = %s" % (nv, cur)]
             elif k == "loop_once":
                 body += ['%s = "clean"' % nv, "for i%d in range(1):" % i, "    %s = %s" % (nv, cur)]
+            elif k == "two_deep_second_call":
+                # a forwarding function two calls deep, called first with clean data and then with the tainted value
+                top += ["def lg%d(x):" % i, "    return x", "", "def hd%d(p):" % i, "    q = lg%d(p)" % i, "    return q", ""]
+                body += ['s%d = hd%d("static")' % (i, i), "%s = hd%d(%s)" % (nv, i, cur)]
+            elif k == "two_deep_sink_second_call":
+                # the same, with the sink inside the inner function
+                top += ["def lgs%d(x):" % i, "    sink(x)", "    return 0", "", "def hds%d(p):" % i, "    w = lgs%d(p)" % i, "    return 0", ""]
+                body += ['s%d = hds%d("static")' % (i, i), "t%d = hds%d(%s)" % (i, i, cur), "%s = %s" % (nv, cur)]
             else:
                 raise ValueError(k)
             cur = nv
@@ -98,6 +116,10 @@ class Chain:
         if self.defined:
             # source and sink are functions of the analysed program (the rules still go by their names)
             top = ["def source():", "    return \"data\"", "", "def sink(p):", "    return 0", ""] + top
+        if self.source == "this_path":
+            lines = top + ["class H:", "    def __init__(self, c):", "        self.conn = c", "", "    def handle(self, p_x):"] + ["        " + x for x in body] \
+                + ["", "hh = H(None)", 'hh.handle("a")', ""]
+            return "\n".join(lines)
         lines = top + [head] + ["    " + x for x in body] + ["", 'handler("a")', ""]
         return "\n".join(lines)
 
@@ -185,7 +207,8 @@ def universe(tier, seed):
     # the same chains under a rule set in which every rule follows a same-name rule restricted to another file
     split = [Chain(c.source, c.connectors, c.sink, split=True) for c in one if len(c.connectors) == 0 or c.connectors[0] in ("assign", "field", "call_return", "list_append")]
     defd = [Chain(s, c, k, defined=True) for s in SOURCES for c in [(), ("assign",), ("reassign_source",), ("field",), ("call_return",), ("reassign_source", "assign")] for k in SINKS]
-    one = one + defd
+    meth = [Chain(s, c, k) for s in METHOD_SOURCES for c in [(), ("assign",), ("field",), ("call_return",), ("binop", "assign")] for k in SINKS]
+    one = one + defd + meth
     if tier == "thorough":
         return one + split + two
     return one + split + random.Random(seed).sample(two, 60)
@@ -194,6 +217,9 @@ def universe(tier, seed):
 SETTINGS = {
     "entry.yaml": "- method_list: [\"%unit_init\"]\n",
     "source.yaml": "- lang: python\n  rules:\n    - operation: call_stmt\n      name: source\n      tag: [\"%target\"]\n"
+                   "    - operation: object_call\n      name: p_x.read_src\n      tag: [\"%target\"]\n"
+                   "    - operation: object_call\n      name: request.query_string.decode_src\n      tag: [\"%target\"]\n"
+                   "    - operation: object_call\n      name: \"%this.conn.recv_src\"\n      tag: [\"%target\"]\n"
                    "    - operation: parameter_decl\n      name: p_src\n",
     "sink.yaml": "- lang: python\n  rules:\n    - operation: call_stmt\n      name: sink\n      target: [\\%arg0]\n      vuln_type: generic\n",
     "propagation.yaml": "[]\n",
